@@ -44,7 +44,10 @@ def _call(case, ref, hyp):
     import pydrobert.torch.functional as F
     import pydrobert.torch.modules as M
 
-    ci, cd, cs = (k / SCALE for k in case["costs"])
+    # "cscale": a non-dyadic common factor, only ever attached to three EQUAL costs.  The implementation then takes
+    # its uniform-cost path (unit costs, multiplied back); by c01_uniform_cost_shortcut the optimal-completion sets do
+    # not depend on the common positive factor, so the model keeps the integer costs.
+    ci, cd, cs = (k / SCALE * case.get("cscale", 1.0) for k in case["costs"])
     eos, ie, bf, pad, warn = case["eos"], case["include_eos"], case["batch_first"], case["padding"], case["warn"]
     with warnings.catch_warnings():
         warnings.simplefilter("ignore")
@@ -354,8 +357,11 @@ def gen_exhaustive(chk):
 
 def _loss_extras(rng, case, V):
     N, R, H = _dims(case)
+    # one case in four has logits of magnitude 1e2..3e3 (exp over/underflows in float64: the loss must still be the
+    # average of -log p, which only a shift-invariant log-softmax delivers)
+    mag = rng.choice([1, 1, 1, 40, 400, 1000])
     case.update(api="loss", V=V, exclude_last=True,
-                logits=[[[rng.randint(-12, 12) for _ in range(V)] for _ in range(N)] for _ in range(H)],
+                logits=[[[rng.randint(-12, 12) * mag for _ in range(V)] for _ in range(N)] for _ in range(H)],
                 weight=None if rng.random() < 0.6 else [rng.randint(0, 8) for _ in range(V)],
                 reduction=rng.choice(["none", "sum", "mean", "mean"]),
                 padding=rng.choice([-2, -100, -1, V, V + 3]))
@@ -423,6 +429,30 @@ def gen_ties(chk, n):
     return cases
 
 
+def gen_uniform_nondyadic(chk, n):
+    """three equal costs that are not on the dyadic grid (0.1, 0.3, 1/3, 0.7, 1.1): ties between table cells are exact
+    only because equal costs are rescaled to 1; longer sequences so that many different paths reach the same cell"""
+    rng = chk.rng
+    cases = []
+    for _ in range(n):
+        V = rng.randint(2, 4)
+        eos = rng.choice([None, None, V, -1])
+        N, R, H = rng.randint(1, 2), rng.randint(4, 8), rng.randint(3, 7)
+        ref = [_rand_seq(rng, R, list(range(V)), eos, p_noeos=0.6) for _ in range(N)]
+        hyp = [(_mutate(rng, r, list(range(V)), eos, H) if rng.random() < 0.5 else
+                _rand_seq(rng, H, list(range(V)) + [V + 1], eos, p_noeos=0.6)) for r in ref]
+        k = rng.choice([1, 2, 4, 4, 6])
+        case = dict(api="oc", module=rng.random() < 0.2, kw=rng.random() < 0.5, ref=ref, hyp=hyp, eos=eos,
+                    include_eos=rng.random() < 0.6, batch_first=rng.random() < 0.5, exclude_last=rng.random() < 0.4,
+                    costs=[k, k, k], cscale=rng.choice([0.1, 0.3, 1 / 3, 0.7, 1.1]),
+                    padding=rng.choice(PADS), warn=False, stream="uniform-nondyadic")
+        if rng.random() < 0.25 and (eos is None or eos >= 0):
+            case = _loss_extras(rng, case, V + 2)
+            case["stream"] = "uniform-nondyadic-loss"
+        cases.append(case)
+    return cases
+
+
 def gen_zero_width_hyp(chk, n):
     """a zero-width hypothesis tensor is inside the input space without eos and without exclude_last"""
     rng = chk.rng
@@ -446,6 +476,7 @@ def gen_cases(chk):
     cases += gen_random(chk, 14000 if thorough else 1300)
     cases += gen_ties(chk, 4000 if thorough else 500)
     cases += gen_zero_width_hyp(chk, 200 if thorough else 30)
+    cases += gen_uniform_nondyadic(chk, 1500 if thorough else 120)
     return [c for c in cases if in_space(c)]
 
 
